@@ -46,11 +46,12 @@ def build(case):
         if case.get("offline"):
             # experiments that do NOT lie on the Arrhenius line of the stated energy: the stated energy must still be used
             val_ *= (1.0 + 0.37 * math.sin(1.7 + 2.3 * case["temps"].index(t)))
-        perm = U.Permeance(value=val_, units=U.Units.kg_m2_h_kPa)
-        if case["units"] != U.Units.kg_m2_h_kPa:
-            perm = perm.convert(to_units=case["units"], component=comp)
+        perm = U.exact_permeance(val_, case["units"], comp.molecular_weight)
+        ea_k = ea
+        if case.get("per_experiment_ea"):
+            ea_k = ea + 3100.0 * case["temps"].index(t)  # every experiment states its OWN activation energy
         exps.append(U.IdealExperiment(name="e", temperature=t, component=comp, permeance=perm,
-                                      activation_energy=ea if case["stated"] else None))
+                                      activation_energy=ea_k if case["stated"] else None))
     # experiments of another component interleaved: must be ignored
     exps.insert(1 if len(exps) > 1 else 0, U.IdealExperiment(name="o", temperature=303.0, component=other,
                                                              permeance=U.Permeance(value=7.7e-3), activation_energy=12345.0))
@@ -84,23 +85,30 @@ def judge(case):
         if not core.bit_eq(val, measured):
             v.append(core.viol("C12/at_experiment", "query at an experiment's temperature returns %r, measured %r" % (val, measured)))
     elif case["stated"]:
-        ref = measured * math.exp(-ea / U.R * (1 / t - 1 / temps[j]))
+        ea_j = ea + (3100.0 * case["temps"].index(temps[j]) if case.get("per_experiment_ea") else 0.0)
+        ref = measured * math.exp(-ea_j / U.R * (1 / t - 1 / temps[j]))
         if not core.close(val, ref, core.ULP):
             v.append(core.viol("C12/arrhenius_stated", "T=%r: %r, nearest experiment (%r K) x Arrhenius factor = %r" % (t, val, temps[j], ref)))
     else:
         if not core.close(val, p_true, 1e-6 if case.get("narrow") else 1e-8):
             v.append(core.viol("C12/arrhenius_regressed", "T=%r: %r, experiments lie on the line giving %r" % (t, val, p_true)))
     # independent of nearest experiment / order of the list: compare with the Arrhenius line itself
-    if not case.get("offline") and not core.close(val, p_true, 1e-6 if case.get("narrow") else 1e-8):
+    if not case.get("offline") and not case.get("per_experiment_ea") and not core.close(val, p_true, 1e-6 if case.get("narrow") else 1e-8):
         v.append(core.viol("C12/line", "T=%r: %r but the experiments' Arrhenius line gives %r (order %r)" % (t, val, p_true, case["order"])))
     if n >= 2 or case["stated"]:
         st, ea_fit = core.call(mem.calculate_activation_energy, comp)
         if st != "ok":
             v.append(core.viol("C12/valid_raises", "calculate_activation_energy raises %r" % (ea_fit,)))
-        elif n >= 2 and not case.get("offline") and not core.close(float(ea_fit), ea, 1e-7 if case.get("narrow") else 1e-9, 1e-6):
+        elif n >= 2 and not case.get("offline") and not case.get("per_experiment_ea") and not core.close(float(ea_fit), ea, 1e-7 if case.get("narrow") else 1e-9, 1e-6):
             v.append(core.viol("C12/regression", "regressed activation energy %r, true %r" % (float(ea_fit), ea)))
         elif n < 2 and not core.bit_eq(float(ea_fit), ea):
             v.append(core.viol("C12/stated_energy", "stated activation energy %r returned as %r" % (ea, float(ea_fit))))
+    # at an experiment's temperature the measured value is returned whatever optional arguments are passed
+    if not v and t == temps[j]:
+        st_i, got_i = core.call(mem.get_permeance, t, comp, U.Permeance(value=0.777))
+        if st_i != "ok" or not core.bit_eq(float(got_i.value), measured):
+            v.append(core.viol("C12/at_experiment", "query at an experiment's temperature with an initial_permeance argument returns %r, measured %r" % (
+                got_i if st_i != "ok" else float(got_i.value), measured)))
     # the same membrane object asked other questions first (another component, other temperatures) must answer the same
     if not v:
         _c, _o, _t, _e, mem2 = build(case)
@@ -154,6 +162,13 @@ def cases(tier, seed):
                     for t in (queries[1::3] + [temps[0], temps[n - 1] + 1e-3]):
                         out.append({"component": comp, "pidx": ci, "temps": temps[:n], "order": order, "ea": ea, "stated": True, "units": U.Units.kg_m2_h_kPa,
                                     "T": t, "offline": True})
+    # every experiment states its own activation energy (the nearest experiment's one counts), permeances off any common line
+    for ci, comp in enumerate(["H2O", "EtOH"]):
+        for n in (2, 3, 4):
+            for order in orderings(n)[:6]:
+                for t in (queries[1::3] + [temps[0], temps[n - 1] - 0.9]):
+                    out.append({"component": comp, "pidx": ci, "temps": temps[:n], "order": order, "ea": 15000.0, "stated": True, "units": U.Units.kg_m2_h_kPa,
+                                "T": t, "offline": True, "per_experiment_ea": True})
     # experiments clustered within a few kelvin (the regression is ill-conditioned but perfectly determined)
     for ci, comp in enumerate(["H2O", "SC"]):
         for cluster in ([350.0, 352.0], [300.0, 301.0, 302.0], [273.15, 274.4], [398.0, 399.1, 400.0]):
